@@ -277,7 +277,9 @@ void profile_resolve(Gen &g) {
 		if (r.chance(1, 5)) {
 			// ... and sometimes another basis is loaded in between: the rows that are basic in it are not the rows that were basic when the solution was computed
 			if (r.chance(1, 3)) { Op mkb = g.mk(0, "basis"); g.seti(mkb, "o", oi); g.set(mkb, "what", "make"); g.seti(mkb, "pat", r.chance(1, 3) ? -1 : (long)r.below(100000)); p.ops.push_back(mkb); Op ld = g.mk(0, "basis"); g.seti(ld, "o", oi); g.set(ld, "what", r.chance(1, 2) ? "load" : "loadarray"); g.seti(ld, "k", -1); p.ops.push_back(ld); }
-			Op d = g.mk(0, "edit"); g.seti(d, "o", oi); g.set(d, "what", std::vector<std::string>{"delrow", "delnamedrow", "delrows", "delsetrows"}[r.below(4)]); g.seti(d, "i", r.below(30)); g.set(d, "list", std::to_string(r.below(30))); p.ops.push_back(d); }
+			Op d = g.mk(0, "edit"); g.seti(d, "o", oi); g.set(d, "what", std::vector<std::string>{"delrow", "delnamedrow", "delrows", "delsetrows"}[r.below(4)]); g.seti(d, "i", r.below(30)); g.set(d, "list", std::to_string(r.below(30)));
+			if (r.chance(1, 2)) g.set(d, "prefer", std::vector<std::string>{"upper", "upper", "lower", "basic"}[r.below(4)]);   // by basis status: a ranged row tight at its upper end is rare among random picks
+			p.ops.push_back(d); }
 		for (int e = 0; e < ne; e++) { Op ed = g.gen_edit(0); g.seti(ed, "o", oi);
 			if (r.chance(1, 2)) { static const char *w[] = {"chgcoef", "chgcoef", "chgcoef", "chgobj", "chgrhs", "chgbound", "chgsense", "chgrange"}; Op e2 = g.mk(0, "edit"); g.seti(e2, "o", oi); std::string what = w[r.below(8)]; g.set(e2, "what", what);
 				g.seti(e2, "i", r.below(30)); g.seti(e2, "j", r.below(30)); g.set(e2, "v", r.chance(1, 6) ? "0" : what == "chgrange" ? g.pos() : g.num()); g.set(e2, "lu", std::string(1, "LUB"[r.below(3)])); g.set(e2, "sense", std::string(1, "LGER"[r.below(4)])); ed = e2; }
